@@ -91,4 +91,10 @@ META = {
   text="All single corruptions from the property's list are enumerated for small ranges on all eleven data plans, combinations are sampled; the oracle decides from the served (post-corruption) responses whether an error is mandatory and otherwise checks numbering, linkage and the exact attachment relation.",
   note="Trusted: the harness's own parsing of the served JSON, sim node rendering. Client built with the 'nocache' URL switch so every call reaches the script.",
  ),
+ "C08": dict(
+  design_ref="DESIGN.md §5 C08",
+  technique="rapid differential: caching client vs uncached client on the same scripted node (sequential state machine + concurrent mixes), request-count bounds, scripted head announcements",
+  text="Generated search over request sequences, concurrent mixes, max-read settings, injected failures and head announcement orders; transparency is decided by comparison with an uncached client, reuse bounds and no-cached-errors by the node's request counts, head validity by membership in the announced set.",
+  note="Trusted: sim node (request log and counts), the 'nocache' switch of jrpc2.New for the reference client.",
+ ),
 }
